@@ -352,10 +352,14 @@ for _c in ("w", "b"):
     K("C09/into-move/built/%s" % _c, ["C09", "C02", "C12"], SN + "c09_into_move_built_%s" % _c, ["san::Data::into_move"],
       "for all well-formed boards (side %s) and ALL field values of PawnMove / PawnCapture / Castling SAN data, with Move::validate imported by contract: no panic (square arithmetic guarded); Ok(m) => m is legal by the rules, is a pawn move to the written destination from the written / same file with the written promotion (resp. a castling)" % _c,
       assumes=ISLEGAL + ["C06/well-formed"], timeout=2400)
-K("C09/text/display-parse", ["C09", "C12"], SN + "c09_text_display_is_standard_and_parses_back", ["<san::Move as Display>::fmt", "san::Data::do_fmt", "san::Move::do_fmt", "<san::Move as FromStr>::from_str", "<san::Data as FromStr>::from_str"],
-  "for every SAN value from_move can produce (all variants x all field values x check marks none/+/#): the text is the standard algebraic notation (piece letter, hints, x, destination, =promotion, O-O / O-O-O, + / #) and parsing it gives the value back (hence distinct values get distinct texts)", timeout=2400)
+for _v, _d in (("castling", "O-O / O-O-O"), ("pawn_move", "destination [=promotion]"), ("pawn_capture", "file x destination [=promotion]"), ("piece_move", "piece letter [file][rank][x] destination")):
+    K("C09/text/%s" % _v.replace("_", "-"), ["C09", "C12"], "moves::san::verif_kani_b::c09_text_%s" % _v, ["<san::Move as Display>::fmt", "san::Data::do_fmt", "san::Move::do_fmt", "<san::Move as FromStr>::from_str", "<san::Data as FromStr>::from_str"],
+      "for every SAN value of this variant that from_move can produce (all field values x check marks none / + / #): the text is the standard algebraic notation (%s, then + or #) and parsing it gives the value back (hence distinct values get distinct texts)" % _d,
+      timeout=3000, mem_gb=24, mem_est=8)
+K("C12/san/from-str-5", ["C12", "C09", "C02"], "moves::san::verif_kani_b::c12_san_from_str_total_len5", ["<san::Move as FromStr>::from_str", "<san::Data as FromStr>::from_str"],
+  "for all UTF-8 strings of <= 5 bytes: SAN parsing returns a value or an error, never panics", bounded="strings of <= 5 bytes", timeout=2400, mem_gb=24, mem_est=8)
 K("C12/san/from-str", ["C12", "C09", "C02"], SN + "c12_san_from_str_total_len7", ["<san::Move as FromStr>::from_str", "<san::Data as FromStr>::from_str"],
-  "for all UTF-8 strings of <= 7 bytes: SAN parsing returns a value or an error, never panics (slicing, from_utf8 unwraps, length arithmetic)", bounded="strings of <= 7 bytes", timeout=2400)
+  "for all UTF-8 strings of <= 7 bytes: SAN parsing returns a value or an error, never panics (slicing, from_utf8 unwraps, length arithmetic)", bounded="strings of <= 7 bytes", timeout=3600, mem_gb=32, mem_est=14, tier="thorough")
 
 # ---------------------------------------------------------------------------------------------
 # C08 FEN, C12 parsers (board.rs)
